@@ -13,6 +13,7 @@ that it cannot be dropped: squid's async-loop protection refuses the 7th call an
 mismatch.
 -/
 import SquidModel.Acl.TreeSysLemmas
+import SquidModel.Acl.TreeCfgLemmas
 
 namespace SquidModel.C44
 open SquidModel.Acl.Tree
@@ -62,6 +63,63 @@ theorem implicit_answer (rules : Rules) :
   · intro h; subst h; rfl
   · intro a n h hc; simp [implicitAnswer, h, hc]
   · intro a n h hc; simp [implicitAnswer, h, hc]
+
+/-! ### from the configuration text to the decision -/
+
+/-- first match over the configuration lines: a line matches when all its (possibly negated) names are true -/
+def cfgFirstMatch (v : Nat → Bool) (gv : List Bool) (banned : Answer → Bool) : List (Answer × List Item) → Option Answer
+  | [] => none
+  | (a, l) :: rest =>
+    if banned a then cfgFirstMatch v gv banned rest
+    else if lineAll v gv l then some a
+    else cfgFirstMatch v gv banned rest
+
+/-- the opposite of the last configured action -/
+def cfgImplicit (rs : List (Answer × List Item)) : Answer :=
+  match rs.getLast? with
+  | none => { code := .dunno, implicit := true }
+  | some (a, _) =>
+    if a.code = .denied then { code := .allowed, implicit := true }
+    else if a.code = .allowed then { code := .denied, implicit := true }
+    else { code := .dunno, implicit := true }
+
+theorem firstMatch_of_rulesMatch (v : Nat → Bool) (gv : List Bool) (banned : Answer → Bool) (tree : Rules)
+    (rs : List (Answer × List Item)) (h : RulesMatch v gv tree rs) :
+    firstMatch v banned tree = cfgFirstMatch v gv banned rs ∧ implicitAnswer tree = cfgImplicit rs := by
+  induction h with
+  | nil => exact ⟨rfl, rfl⟩
+  | @cons t r ts rs' h1 h2 _ ih =>
+    obtain ⟨a, n⟩ := t
+    obtain ⟨a', l⟩ := r
+    simp only at h1 h2
+    subst h1
+    refine ⟨by simp only [firstMatch, cfgFirstMatch, h2, ih.1], ?_⟩
+    have ih2 := ih.2
+    unfold implicitAnswer cfgImplicit at ih2 ⊢
+    cases ts with
+    | nil => cases ‹RulesMatch v gv [] rs'›; rfl
+    | cons t2 ts2 =>
+      cases ‹RulesMatch v gv (t2 :: ts2) rs'› with
+      | cons _ _ _ =>
+        simp only [List.getLast?_cons_cons]
+        exact ih2
+
+/-- config_decides_by_first_match: for leaves that only match or mismatch, the tree that the parsers build from
+the `acl ... all-of|any-of` directives and the allow/deny lines decides exactly as the configuration text reads:
+the action of the first (non-banned, non-skipped) line all of whose possibly negated names are true, where an
+all-of name is true when one of its lines is all true and an any-of name when one of its names is true; otherwise
+the opposite of the last line's action; DUNNO without lines. -/
+theorem config_decides_by_first_match (ctx : Ctx) (hb : BoolLeaves ctx) (nleaves : Nat) (gs : List GroupSpec)
+    (hne : ∀ g ∈ gs, g.lines ≠ []) (groups : List Node) (hg : parseGroups nleaves [] gs = some groups)
+    (via : Bool) (rs : List (Answer × List Item)) (tree : Rules) (ht : parseRules nleaves groups via rs = some tree) :
+    reference ctx tree =
+      match cfgFirstMatch ctx.truth (groupVals ctx.truth [] gs) ctx.isBanned (keptRules via rs) with
+      | some a => a
+      | none => cfgImplicit (keptRules via rs) := by
+  have hgs := parseGroups_sem ctx.truth nleaves [] [] ⟨rfl, by simp⟩ gs hne groups hg
+  have hm := parseRules_sem ctx.truth nleaves groups _ hgs via rs tree ht
+  obtain ⟨h1, h2⟩ := firstMatch_of_rulesMatch ctx.truth _ ctx.isBanned tree _ hm
+  rw [reference_is_first_match ctx hb tree, h1, h2]
 
 /-! ### the theorems about the checklist code -/
 
